@@ -17,11 +17,13 @@ RULE = ('Random well-nested write histories: 1-3 interchanges x 0-3 groups x 0-3
 ASSUMPTIONS = ['a sibling header while a loop of the same level is still open is outside the property\'s domain and not generated',
                'data contains none of the writer\'s delimiters; about a tenth of the histories re-use a control number within its scope: counts and trailers must still be true, only the duplicate-id finding itself is then ignored on re-reading',
                'check_837_lx (LX renumbering) left at its default']
-REQUIRED_COUNTERS = ['runs:writer-used-again-after-Close', 'runs:control-number-with-foreign-delimiter', 'trailers:wrong:earlier-sibling-id', 'histories', 'runs', 'runs:cut', 'runs:control-number-reused', 'trailers:omitted', 'trailers:wrong', 'reader-rechecks', 'isa:00501', 'isa:00401']
+REQUIRED_COUNTERS = ['runs:isa-field-holding-the-source-component-separator', 'runs:writer-used-again-after-Close', 'runs:control-number-with-foreign-delimiter', 'trailers:wrong:earlier-sibling-id', 'histories', 'runs', 'runs:cut', 'runs:control-number-reused', 'trailers:omitted', 'trailers:wrong', 'reader-rechecks', 'isa:00501', 'isa:00401']
 MIN_CASES = {'quick': 4000, 'thorough': 1500000}
 
 TERMS = [('~', '*', ':', '^', '\n'), ('!', '|', '>', '^', ''), ('\x1c', '\x1d', '<', '\x1f', '\r\n'), ('\n', '*', ':', '^', ''), ('~', '*', '\\', '^', '\n'),
-         ('\'', '+', ':', '!', '\n'), ('$', '^', '&', '#', '')]
+         ('\'', '+', ':', '!', '\n'), ('$', '^', '&', '#', ''),
+         # the writer's delimiters in the roles of OTHER delimiters of the text its segments were parsed from (~ * :)
+         ('~', '|', '*', '^', '\n'), ('~', '*', '>', ':', '\n'), ('*', '|', '~', ':', '')]
 BODY = ['BHT*0019*00*1', 'NM1*85*2*X', 'REF*87*1', 'HL*1**20*1', 'SV1*HC:99213*40*UN*1', 'SV1*HC:99213:25::*40', 'N3*1 MAIN ST**', 'DTP*472*D8*20040407',
         'CLM*A1*100***11:B:1*Y', 'LX*1', 'PER*IC*X*TE*5551212***', 'K3*A  B',
         'REF', 'REF**', 'N3*', 'SV1*::*', 'LS*2120', 'LE*2120', 'LE*2700', 'LS*2700',
@@ -147,7 +149,12 @@ def play(ctx, ev, cut, terms, meta):
             elif lv == 'ISA':
                 prev_ids['GS'] = []
             if lv == 'ISA':
-                els = RE.isa_elements(cid, arg, sub=':')
+                snd = 'SENDER'
+                if ':' not in (st, et, sb, rep) and zlib.crc32(repr((meta, cid, len(want))).encode()) % 3 == 0:
+                    # the source's component separator inside an ISA field: ISA fields are never composites, and for this writer ':' is data
+                    snd = ['SEND:ER', 'ZZ:000:1', 'ABCDEFGHIJKLMN:'][len(want) % 3]
+                    info['isa_field_with_source_separator'] = 1
+                els = RE.isa_elements(cid, arg, sub=':', sender=snd)
                 segstr = 'ISA*' + '*'.join(els)
                 w.Write(S.Segment(segstr, '~', '*', ':'))
                 ctx.count('isa:' + arg)
@@ -261,6 +268,8 @@ def one(ctx, ev, cut, terms, meta):
         return None
     ctx.count('trailers:omitted', info['omitted'])
     ctx.count('trailers:wrong', info['wrong'])
+    if info.get('isa_field_with_source_separator'):
+        ctx.count('runs:isa-field-holding-the-source-component-separator')
     if info.get('closed_midway'):
         ctx.count('runs:writer-used-again-after-Close')
     if info.get('punctuated'):
